@@ -19,8 +19,9 @@ Definition vl_utf8_or_default (l : bytes) : bytes := if utf8_valid l then l else
 (** no NUL byte inside a string *)
 Definition vl_no_nul (l : bytes) : bool := forallb (fun b => negb (b =? 0)) l.
 
-(** a Rust [String] the decoders of these boxes can return *)
-Definition vl_str_ok (l : bytes) : bool := utf8_valid l && vl_no_nul l.
+(** a Rust [String] the decoders of these boxes can return: valid UTF-8 (in particular every
+    element is a byte; stated separately so that nobody has to derive it) without a NUL *)
+Definition vl_str_ok (l : bytes) : bool := bytes_ok l && utf8_valid l && vl_no_nul l.
 
 (** [for x in v.iter() { f(x)?; }] on the write side *)
 Fixpoint vl_wr_each {A} (f : A -> wprog unit) (l : list A) : wprog unit :=
